@@ -37,7 +37,7 @@ PROPS = {
     'C13': P(flags=['r', 'd', 'w', 'x', 'g', 'e', 'i', 'ns', 'ne'], lang=False, stages=['clusters_r', 'trie', 'out'], theorems=('C13.v', None),
              n=(2000, 50000), alphabets=['a', 'ab', 'abc', 'ab.-', 'meta', 'digits']),
     'C15': P(flags=casegen.FLAGS, force=['c'], lang=False, stages=['out', 'selfcheck'], theorems=('C15.v', None), n=(2500, 60000)),
-    'C16': P(flags=['r', 'd', 'w', 's', 'g', 'ns', 'ne'], lang=True, stages=['trie', 'min', 'expr', 'out'], theorems=('C16.v', None), n=(1500, 40000)),
+    'C16': P(flags=['r', 'd', 'w', 's', 'g', 'ns', 'ne', 'D', 'W', 'S'], lang=True, stages=['trie', 'min', 'expr', 'out'], theorems=('C16.v', None), n=(1500, 40000)),
     'C10': P(flags=casegen.FLAGS, lang=False, stages=['norm', 'clusters_r', 'min', 'expr', 'out', 'selfcheck'], theorems=('C10.v', None), n=(400, 6000), runner='c10'),
     'C12': P(flags=casegen.FLAGS, lang=False, stages=[], theorems=('C12.v', None), n=(160, 4000), runner='c12'),
     'C14': P(flags=casegen.FLAGS, lang=False, stages=[], theorems=('C14.v', None), n=(600, 20000), runner='c14'),
@@ -153,7 +153,7 @@ def select_cases(pid, spec, tier, seed):
             if 'E' in fl and 'e' in fl:
                 fl.remove('e')
             fam.append({'tcs': sub, 'f': ','.join(fl), 'mr': 1, 'ms': 1, 'alpha': 'dense'})
-    if pid in ('C01', 'C03', 'C05', 'C06', 'C07', 'C11', 'C13') and 'r' in spec['flags']:
+    if pid in ('C01', 'C03', 'C05', 'C06', 'C07', 'C11', 'C13', 'C16') and 'r' in spec['flags']:
         # multi-code-point clusters that grex keeps whole, repeated: grouping and "single character" decisions
         # (seeds C05d, C06c, C11d, C01c hide behind exactly these inputs)
         ncl = 500 if tier == 'quick' else 6000
